@@ -52,6 +52,7 @@ def gen_class(lang, name, n_pub, n_priv, extras, blank, comment, start_line, sty
             L.append("  // a comment line")
         if comment:
             L += ["  /* a block comment", "   * with a starred line", "   */"]
+            L += ["  /* unit */ y = 2;"]          # code after a closed block comment is code
         for i in range(n_pub):
             pm = "public " if (style == "explicit-public" and lang == "typescript") else ""
             L += [f"  {pm}pub{i}() {{", f"    return {i}", f"      * 2;", "  }"] if (comment and i == 0) else [f"  {pm}pub{i}() {{", f"    return {i};", "  }"]
@@ -78,6 +79,7 @@ def gen_class(lang, name, n_pub, n_priv, extras, blank, comment, start_line, sty
             L += [f"struct {name} {{", "    x: i32,", "}", f"impl {name} {{"]
         if comment:
             L.append("    // a comment line")
+            L.append("    /* unit */ const K: i32 = 2;")
         for i in range(n_pub):
             L += [f"    pub fn pub{i}(&self) -> i32 {{", f"        *self.slot.borrow_mut() = {i};", f"        {i}", "    }"] if (comment and i == 0) \
                 else [f"    pub fn pub{i}(&self) -> i32 {{", f"        {i}", "    }"]
@@ -103,6 +105,9 @@ def gen_class(lang, name, n_pub, n_priv, extras, blank, comment, start_line, sty
         if not st or st.startswith(cmt):
             continue
         if cmt == "//" and st.startswith("/*"):
+            if "*/" in st and st.split("*/", 1)[1].strip():
+                loc += 1            # code follows the comment on the same line
+                continue
             in_block = "*/" not in st
             continue
         loc += 1
@@ -148,16 +153,6 @@ def make_harness(tier):
                 cfg[key] = {"max_methods": omm, "max_loc": oml}
                 if ov == "own":
                     eff_mm, eff_ml = omm, oml
-        warm = None
-        if ov != "none" and nclasses == 1:
-            wk = ctx.pick("earlier_file_in_the_same_run", ("none", "of-the-overridden-language", "of-a-third-language"))
-            okey = key if key in _WARM else "typescript"
-            base_lang = "typescript" if lang == "javascript" else lang
-            if wk == "of-the-overridden-language":
-                ctx.assume(okey != base_lang)
-                warm = okey
-            elif wk == "of-a-third-language":
-                warm = next(l for l in ("python", "typescript", "rust") if l not in (base_lang, okey))
         lines, classes = ["// header" if lang != "python" else "# header", ""], []
         for c in range(nclasses):
             name = ctx.pick(f"name{c}", ("Widget" + str(c), "DataManager" + str(c)))
@@ -184,6 +179,16 @@ def make_harness(tier):
                 hl += len(wrap[0])
             classes.append((name, pub, loc, hl, extras))
             lines += L + [""]
+        warm = None
+        if ov != "none" and nclasses == 1 and (not quick or (fill == "plain" and not extras)):
+            wk = ctx.pick("earlier_file_in_the_same_run", ("none", "of-the-overridden-language", "of-a-third-language"))
+            okey = key if key in _WARM else "typescript"
+            base_lang = "typescript" if lang == "javascript" else lang
+            if wk == "of-the-overridden-language":
+                ctx.assume(okey != base_lang)
+                warm = okey
+            elif wk == "of-a-third-language":
+                warm = next(l for l in ("python", "typescript", "rust") if l not in (base_lang, okey))
         content = "\n".join(lines)
         vs = _run(SRPRule, lang, content, {"srp": cfg}, warm)
         ctx.require("only-srp-violations", all(v.rule_id == "srp.violation" for v in vs))
